@@ -174,7 +174,7 @@ def run(ctx):
         attrs = {'__keyspace__': rng.choice(['ks38', 'Ks_B']), '__table_name__': 't38_%d_%d' % (ctx.worker or 0, mid)}
         if not sp.compute:
             attrs['__compute_routing_key__'] = False
-        sp.retyped = sp.added_key = sp.concrete_base = sp.redeclared = False
+        sp.retyped = sp.added_key = sp.concrete_base = sp.redeclared = sp.redeclared_as_partition_key = False
         if sp.inherit:
             # a model hierarchy: the base (abstract, or concrete with a table of its own) declares the columns; the subclass may
             # re-declare inherited partition-key columns (fresh column objects, same or ANOTHER column class, either keyword form),
@@ -194,6 +194,8 @@ def run(ctx):
                     kw = dict((a, b) for a, b in c[4].items() if a not in ('partition_key', 'primary_key'))
                     kw[rng.choice(['partition_key', 'primary_key'])] = True
                     sp.redeclared = True
+                    if kw.get('partition_key'):
+                        sp.redeclared_as_partition_key = True
                     if newt != c[2]:
                         sp.retyped = True
                     c[2], c[4] = newt, kw
@@ -378,7 +380,12 @@ def run(ctx):
                 if any(f in ('_routing_key_from_values', 'partition_key_values', '_update_part_key_values', '_set_routing_key',
                              '_key_parts_packed') or 'key_serializer' in f for f in frames) or (
                         '_execute_statement' in frames and frames[-1] in ('<lambda>', 'to_binary', 'serialize')):
-                    ctx.violation("routing-key-computation-raises", "%s: computing the routing key raised %s: %s" % (opname, type(e).__name__, str(e)[:200]),
+                    mech = "routing-key-computation-raises"
+                    if (isinstance(e, IndexError) and frames[-1] == '_update_part_key_values' and sp.added_key and sp.redeclared_as_partition_key
+                            and sorted(sp.model._partition_key_index.values()) != list(range(len(sp.model._partition_key_index)))):
+                        # the model's key index map has a hole: see known_findings.d/C38.json
+                        mech = "partition-key-index-gap-when-subclass-redeclares-and-adds-partition-key"
+                    ctx.violation(mech, "%s: computing the routing key raised %s: %s" % (opname, type(e).__name__, str(e)[:200]),
                                   {"operation": opname, "frames": frames[-6:], "partition_key": [(n, S.cql_name(sp.cols[n][2]) if sp.cols[n][2][0] != 'udt' else 'udt') for n in sp.pk],
                                    "key_values": repr([canon[n] for n in sp.pk])[:300] if canon else None})
                     return
